@@ -659,6 +659,12 @@ func (m *Machine) bytesEq(a, b []*Term) *Term {
 						pe = tt.F
 					} else if len(pa) == 0 {
 						pe = tt.T
+					} else if m.path.hashDepth < 6 {
+						// preimages may embed hash values themselves (Merkle nodes): recurse so that
+						// collision-freeness is applied at every level
+						m.path.hashDepth++
+						pe = m.bytesEq(pa, pb)
+						m.path.hashDepth--
 					} else {
 						pe = tt.T
 						for k := range pa {
